@@ -285,8 +285,9 @@ class Interp:
         return self.votes[k]
 
     def _fire_lasts_on_blank_end(self):
-        """the file ends in a blank record: last() components run once, nothing is returned (docs last.md; C13)."""
-        self._init_counters()
+        """the file ends in a blank record: last() components run once, nothing is returned (docs last.md; C13).
+        Counters are NOT initialised here: the pass is frozen (no variable writes), so on a file of blank records only a
+        counter never becomes a variable (docs/functions/counter.md says nothing about a run that evaluates no record)."""
         self.frozen = True
         self._mc_at_start = self.match_count
         self.votes = [None] * len(self.comps)
